@@ -240,8 +240,11 @@ def main(argv=None):
         ev = {"property_id": prop, "tier": tier, "seed": seed, "level": getattr(mod, "LEVEL", "exploration"),
               "coverage": cov, "assumptions": getattr(mod, "ASSUMPTIONS", []), "wall_s": wall,
               "violations": len(unknown)}
-        os.makedirs(os.path.join(vf.VERIF_ROOT, "evidence"), exist_ok=True)
-        with open(os.path.join(vf.VERIF_ROOT, "evidence", prop + ".json"), "w") as f:
+        # evidence is only ever written for runs against /repo itself
+        evdir = os.path.join(vf.VERIF_ROOT, "evidence") if not os.environ.get("VERIF_GLUE_PATH") else \
+            os.path.join(vf.VERIF_ROOT, ".work", "evidence_dev")
+        os.makedirs(evdir, exist_ok=True)
+        with open(os.path.join(evdir, prop + ".json"), "w") as f:
             json.dump(ev, f, indent=1, sort_keys=True)
 
     for ln in lines:
